@@ -9,6 +9,7 @@ import (
 	"github.com/aws/aws-sdk-go/service/dynamodb"
 	v1 "github.com/truora/minidyn/aws-v1/client"
 	"github.com/truora/minidyn/interpreter"
+	"github.com/truora/minidyn/simrt"
 )
 
 // V1 drives aws-v1/client.
@@ -212,6 +213,9 @@ func (d *V1) Exec(cmd *Cmd) (o Outcome) {
 	curID = cmd.ID
 	defer func() {
 		if r := recover(); r != nil {
+			if simrt.IsAbort(r) {
+				panic(r)
+			}
 			o = Outcome{}
 			o.Class, o.Err = classifyPanic(r)
 		}
